@@ -27,46 +27,53 @@
 EXTENDS Naturals, Integers, Sequences, FiniteSets, TLC, Json
 
 \* ===================================================================================== PART 1: predicates
-SeqToSet(s) == {s[k] : k \in 1..Len(s)}
+\* (quantification is over tile INDICES of the logged sequences: cheap for TLC, no sets of records are built)
+Idx(v) == 1..Len(v.tiles)
 TileId(t) == <<t.m, t.n>>
-Tiles(v) == SeqToSet(v.tiles)
-Local(v) == {t \in Tiles(v) : t.o = v.rank}
+LocalIdx(v) == {i \in Idx(v) : v.tiles[i].o = v.rank}
 Footprint(t) == {t.off + cc * t.ld + rr : rr \in 0..(t.r - 1), cc \in 0..(t.c - 1)}
 
-\* every tile is listed once, its owner is a valid rank
+\* every tile is listed once, inside the (sub)matrix
 ViewWellFormed(v) ==
-    /\ Cardinality({TileId(t) : t \in Tiles(v)}) = Len(v.tiles)
-    /\ \A t \in Tiles(v) : t.m \in 0..(v.mt - 1) /\ t.n \in 0..(v.nt - 1)
-OwnersValid(v) == \A t \in Tiles(v) : t.o \in 0..(v.nodes - 1)
+    /\ \A i, j \in Idx(v) : i < j => TileId(v.tiles[i]) # TileId(v.tiles[j])
+    /\ \A i \in Idx(v) : v.tiles[i].m \in 0..(v.mt - 1) /\ v.tiles[i].n \in 0..(v.nt - 1)
+\* the owner is a valid rank
+OwnersValid(v) == \A i \in Idx(v) : v.tiles[i].o \in 0..(v.nodes - 1)
 \* local tiles <-> storage slots: injective, inside the slots the rank allocated
 SlotsInjective(v) ==
-    /\ \A t \in Local(v) : t.slot \in 0..(v.nlt - 1)
-    /\ \A t1, t2 \in Local(v) : TileId(t1) # TileId(t2) => t1.slot # t2.slot
+    /\ \A i \in LocalIdx(v) : v.tiles[i].slot \in 0..(v.nlt - 1)
+    /\ \A i, j \in LocalIdx(v) : i < j => v.tiles[i].slot # v.tiles[j].slot
 \* memory of local tiles: inside the local storage, pairwise disjoint
 MemoryDisjoint(v) ==
-    /\ \A t \in Local(v) : t.off >= 0 /\ t.r >= 1 /\ t.c >= 1 /\ t.ld >= t.r
-                           /\ t.off + (t.c - 1) * t.ld + t.r <= v.cap
-    /\ \A t1, t2 \in Local(v) : TileId(t1) # TileId(t2) => Footprint(t1) \cap Footprint(t2) = {}
+    /\ \A i \in LocalIdx(v) : LET t == v.tiles[i] IN
+           /\ t.off >= 0 /\ t.r >= 1 /\ t.c >= 1 /\ t.ld >= t.r
+           /\ t.off + (t.c - 1) * t.ld + t.r <= v.cap
+    /\ \A i, j \in LocalIdx(v) : i < j => Footprint(v.tiles[i]) \cap Footprint(v.tiles[j]) = {}
 \* data keys <-> coordinates
 KeysRoundTrip(v) ==
-    /\ \A t \in Tiles(v) : t.km = t.m /\ t.kn = t.n                    \* key -> coordinates gives the tile back
-    /\ \A t1, t2 \in Tiles(v) : TileId(t1) # TileId(t2) => t1.key # t2.key
-    /\ \A t \in Tiles(v) : t.ok = -1 \/ t.ok = t.o                     \* the key names the same owner
-    /\ \A t \in Local(v) : t.bykey # 0                                 \* ... and the same data
+    /\ \A i \in Idx(v) : LET t == v.tiles[i] IN
+           /\ t.km = t.m /\ t.kn = t.n                                 \* key -> coordinates gives the tile back
+           /\ (t.ok = -1 \/ t.ok = t.o)                                 \* the key names the same owner
+    /\ \A i, j \in Idx(v) : i < j => v.tiles[i].key # v.tiles[j].key   \* distinct tiles, distinct keys
+    /\ \A i \in LocalIdx(v) : v.tiles[i].bykey # 0                     \* the key names the same data
 StoredKeysRoundTrip(v) ==
-    \A t \in Local(v) : /\ t.dself # 0                                 \* the key kept in the data names that data
-                        /\ (t.dkey = -1 \/ t.dkey = t.key)
-VpidInRange(v) == \A t \in Local(v) : t.vp \in 0..(v.nvp - 1)
+    \A i \in LocalIdx(v) : LET t == v.tiles[i] IN
+        /\ t.dself # 0                                                  \* the key kept in the data names that data
+        /\ (t.dkey = -1 \/ t.dkey = t.key)
+VpidInRange(v) == \A i \in LocalIdx(v) : v.tiles[i].vp \in 0..(v.nvp - 1)
 ViewConsistent(v) == /\ ViewWellFormed(v) /\ OwnersValid(v) /\ SlotsInjective(v) /\ MemoryDisjoint(v)
                      /\ KeysRoundTrip(v) /\ StoredKeysRoundTrip(v) /\ VpidInRange(v)
 
-\* across the views of all ranks (vs = sequence of views, one per rank, in rank order)
+\* across the views of all ranks (vs = sequence of views, one per rank, in rank order; every view lists the tiles
+\* in the same order: a convention of the harness)
 AllRanksPresent(vs, nodes) == Len(vs) = nodes /\ \A k \in 1..Len(vs) : vs[k].rank = k - 1 /\ vs[k].nodes = nodes
-SameTiles(vs) == \A k \in 1..Len(vs) : {TileId(t) : t \in Tiles(vs[k])} = {TileId(t) : t \in Tiles(vs[1])}
-Claimants(vs, id) == {k \in 1..Len(vs) : \E t \in Tiles(vs[k]) : TileId(t) = id /\ t.o = vs[k].rank}
-ExactlyOneOwner(vs) == \A id \in {TileId(t) : t \in Tiles(vs[1])} : Cardinality(Claimants(vs, id)) = 1
-ViewsAgree(vs) == \A k \in 1..Len(vs) : \A t \in Tiles(vs[k]) : \A t1 \in Tiles(vs[1]) :
-                      TileId(t) = TileId(t1) => t.o = t1.o /\ t.key = t1.key
+SameTiles(vs) == \A k \in 1..Len(vs) : /\ Len(vs[k].tiles) = Len(vs[1].tiles)
+                                       /\ \A i \in Idx(vs[1]) : TileId(vs[k].tiles[i]) = TileId(vs[1].tiles[i])
+\* ranks that claim tile i as theirs
+Claimants(vs, i) == {k \in 1..Len(vs) : vs[k].tiles[i].o = vs[k].rank}
+ExactlyOneOwner(vs) == \A i \in Idx(vs[1]) : Cardinality(Claimants(vs, i)) = 1
+ViewsAgree(vs) == \A k \in 1..Len(vs) : \A i \in Idx(vs[1]) :
+                      vs[k].tiles[i].o = vs[1].tiles[i].o /\ vs[k].tiles[i].key = vs[1].tiles[i].key
 TablesConsistent(vs, nodes) == /\ AllRanksPresent(vs, nodes) /\ SameTiles(vs) /\ ExactlyOneOwner(vs) /\ ViewsAgree(vs)
                                /\ \A k \in 1..Len(vs) : ViewConsistent(vs[k])
 
@@ -115,28 +122,33 @@ ModelTile(c, r, m, n) ==
              dkey |-> key, dself |-> 1, bykey |-> 1, vp |-> 0]
 ModelView(c, r) == [rank |-> r, nodes |-> c.P * c.Q, mt |-> c.mt, nt |-> c.nt, nlt |-> NbLocalTiles(c, r),
                     cap |-> NbLocalTiles(c, r), nvp |-> 1,
-                    tiles |-> [k \in 1..(c.mt * c.nt) |-> ModelTile(c, r, (k - 1) % c.mt, (k - 1) \div c.mt)]]
-ModelViews(c) == [k \in 1..(c.P * c.Q) |-> ModelView(c, k - 1)]
+                    tiles |-> TLCEval([k \in 1..(c.mt * c.nt) |-> ModelTile(c, r, (k - 1) % c.mt, (k - 1) \div c.mt)])]
+ModelViews(c) == TLCEval([k \in 1..(c.P * c.Q) |-> ModelView(c, k - 1)])
 
 VARIABLE cfg
-NoCfg == [P |-> 0]
+NoCfg == [stage |-> "none"]
 Init == cfg = NoCfg
-\* parsec_matrix_block_cyclic_init with kp = kq = 1 / with k-cyclicity: one action each (they select different C functions)
-Config(P, Q, kp, kq, ip, jq, lmt, lnt, it, jt) ==
-    [P |-> P, Q |-> Q, kp |-> kp, kq |-> kq, ip |-> ip, jq |-> jq, lmt |-> lmt, lnt |-> lnt, it |-> it, jt |-> jt,
-     mt |-> lmt - it, nt |-> lnt - jt]
-InitPlain(P, Q, ip, jq, lmt, lnt, it, jt) == cfg = NoCfg /\ cfg' = Config(P, Q, 1, 1, ip, jq, lmt, lnt, it, jt)
-InitKCyclic(P, Q, kp, kq, ip, jq, lmt, lnt, it, jt) ==
-    cfg = NoCfg /\ (kp > 1 \/ kq > 1) /\ cfg' = Config(P, Q, kp, kq, ip, jq, lmt, lnt, it, jt)
-Next == \/ \E P \in 1..MaxP, Q \in 1..MaxQ, lmt \in 1..MaxLMT, lnt \in 1..MaxLNT :
-           \E ip \in 0..(P - 1), jq \in 0..(Q - 1), it \in 0..MaxOff, jt \in 0..MaxOff :
-              it < lmt /\ jt < lnt /\ InitPlain(P, Q, ip, jq, lmt, lnt, it, jt)
-        \/ \E P \in 1..MaxP, Q \in 1..MaxQ, lmt \in 1..MaxLMT, lnt \in 1..MaxLNT, kp \in 1..MaxK, kq \in 1..MaxK :
-           \E ip \in 0..(P - 1), jq \in 0..(Q - 1), it \in 0..MaxOff, jt \in 0..MaxOff :
-              it < lmt /\ jt < lnt /\ InitKCyclic(P, Q, kp, kq, ip, jq, lmt, lnt, it, jt)
+\* parsec_grid_2Dcyclic_init: the process grid is chosen first (an intermediate state: it also lets TLC's workers
+\* share the box)
+ChooseGrid == /\ cfg.stage = "none"
+              /\ \E P \in 1..MaxP, Q \in 1..MaxQ : \E ip \in 0..(P - 1), jq \in 0..(Q - 1) :
+                    cfg' = [stage |-> "grid", P |-> P, Q |-> Q, ip |-> ip, jq |-> jq]
+Config(g, kp, kq, lmt, lnt, it, jt) ==
+    [stage |-> "full", P |-> g.P, Q |-> g.Q, kp |-> kp, kq |-> kq, ip |-> g.ip, jq |-> g.jq, lmt |-> lmt, lnt |-> lnt,
+     it |-> it, jt |-> jt, mt |-> lmt - it, nt |-> lnt - jt]
+\* parsec_matrix_block_cyclic_init with kp = kq = 1 (twoDBC_* functions) ...
+InitPlain == /\ cfg.stage = "grid"
+             /\ \E lmt \in 1..MaxLMT, lnt \in 1..MaxLNT, it \in 0..MaxOff, jt \in 0..MaxOff :
+                   it < lmt /\ jt < lnt /\ cfg' = Config(cfg, 1, 1, lmt, lnt, it, jt)
+\* ... and with k-cyclicity (twoDBC_kcyclic_* functions)
+InitKCyclic == /\ cfg.stage = "grid"
+               /\ \E lmt \in 1..MaxLMT, lnt \in 1..MaxLNT, kp \in 1..MaxK, kq \in 1..MaxK, it \in 0..MaxOff, jt \in 0..MaxOff :
+                     /\ (kp > 1 \/ kq > 1) /\ it < lmt /\ jt < lnt
+                     /\ cfg' = Config(cfg, kp, kq, lmt, lnt, it, jt)
+Next == ChooseGrid \/ InitPlain \/ InitKCyclic
 Spec == Init /\ [][Next]_cfg
 
-IsCfg == cfg.P # 0
+IsCfg == cfg.stage = "full"
 \* the transcribed algorithm satisfies the property on every configuration of the box
 ModelConsistent == IsCfg => TablesConsistent(ModelViews(cfg), cfg.P * cfg.Q)
 \* the counting loops count exactly the tiles the rank owns (whole stored matrix), slots fill the storage densely
